@@ -970,7 +970,17 @@ def _per_file_body(ctx, rep, f_files, fl, lv_in, lv_out):
         rep.fail("C16.failure-contained", "anonymize_files", "the per-file loop body has %d try statements; expected the per-file work inside one try" % len(tries), w, key="C16.failure-contained|anonymize_files")
         return
     tr = tries[0]
-    outside = [n for n in loop_node.body if n is not tr and any(isinstance(x, _ast.Call) and not (isinstance(x.func, _ast.Attribute) and isinstance(x.func.value, _ast.Name) and x.func.value.id == "logging") for x in _ast.walk(n))]
+    def _logging_call(x):
+        """logging.debug(...) or <module-level logger>.debug(...) where the logger is `logging.getLogger(...)`."""
+        if not (isinstance(x.func, _ast.Attribute) and isinstance(x.func.value, _ast.Name)):
+            return False
+        if x.func.value.id == "logging":
+            return True
+        if x.func.attr not in ("debug", "info", "warning", "error", "exception", "critical", "log", "isEnabledFor"):
+            return False
+        exprs = f_files.module.assigns.get(x.func.value.id, ())
+        return len(exprs) == 1 and isinstance(exprs[0], _ast.Call) and _ast.unparse(exprs[0].func) in ("logging.getLogger", "getLogger")
+    outside = [n for n in loop_node.body if n is not tr and any(isinstance(x, _ast.Call) and not _logging_call(x) for x in _ast.walk(n))]
     rep.ob("C16.work-inside-try", "anonymize_files", not outside, "calls in the file loop outside the try: %s" % [_ast.unparse(n)[:60] for n in outside], w, key="C16.work-inside-try|anonymize_files")
     names = [(_ast.unparse(h.type) if h.type is not None else "bare") for h in tr.handlers]
     catch_all = any(nm in ("Exception", "BaseException", "bare") for nm in names)
@@ -1188,7 +1198,8 @@ def c19(ctx, rep):
     rep.ob("C19.config-parser", "_parse_args", parser_ok, "the parser is a configargparse parser", W(f_parse), key="C19.config-parser|_parse_args")
     for path in A.paths(f_parse).paths:
         r = path.returned()
-        ok = M.is_call(r) and M.callee_name(r) == "parse_args" and r[2] == (("param", f_parse.mparams[0]),)
+        argv_t = ("param", f_parse.mparams[0])
+        ok = M.is_call(r) and M.callee_name(r) == "parse_args" and (r[2] == (argv_t,) and not r[3] or (not r[2] and tuple(r[3]) == (("args", argv_t),)))  # parse_args(argv) / parse_args(args=argv)
         rep.ob("C19.no-post-processing", "_parse_args", ok, "_parse_args returns %s; expected parser.parse_args(argv) unmodified" % show(r)[:80], W(f_parse), key="C19.no-post-processing|_parse_args")
     # 5. defaults
     want_defaults = {"--anonymize-ips": False, "--dump-ip-map": None, "--log-level": "INFO", "--as-numbers": None, "--anonymize-passwords": False, "--reserved-words": None, "--salt": None, "--undo": False,
